@@ -50,6 +50,8 @@ func scenarioExprsW(thorough bool, wf int) []string {
 		"sort_by(@, &@)", "sort_by(a, &@)", "sort_by(a, &k)", "sort_by(b, &k)", "max_by(a, &k)", "min_by(a, &@)", "sort(a)", "reverse(a)", "map(&k, a)", "keys(@)", "values(@)", "*", "*.a",
 		"a[?k > `1`]", "a[*].k", "a[].k", "merge(@, @)", "join(',', b)", "length(a)", "a | sort_by(@, &k) | [0]", "[a, b]", "{x: a, y: b}", "abs(a)", "nosuch(a)", "a[::0]", "a[::-1]", "to_string(@)",
 		"contains(a, `1`)", "avg(a)", "sum(a)", "max(a)", "min(a)", "type(a)", "not_null(a, b)", "to_number(a)", "starts_with(a, b)", "a.b.c", "a[0]", "a[-1]", "a || b", "a && b", "!a", "a == b", "a < b", "@", "'raw'", "`1`",
+		"a[?nosuch(@)] || length(@)", "b[?nosuch(@)] || length(@)", "a && abs(a, a) || length(@)", "[?nosuch(@)]", "b || nosuch(a)", "a[?k > `1`] || nosuch(@)", "*.abs(@)", "*.k", "a[*].abs(k)", "a[?k >= `0`]", "a[?k >= `0`].t",
+		"sum(a)", "max(b)", "sort(b)", "[*].sum(@)", "a[*].to_array(k) | [*][0]", "join(',', b)",
 		"sort_by(a, &k) | sort_by(@, &t)", "sort_by(sort_by(a, &k), &t)", "a[*].sort(@)", "[sort_by(a, &k), a]", "sort_by(a, &k)[0].k",
 	} {
 		add(s)
@@ -152,6 +154,7 @@ var parserAlphabet = []string{
 	"{a: b, c: d}", "[a, b]", "f(a, &b)", "`[1, 2, {\"a\": \"\\`\"}]`", "'raw'", `'it\'s'`, `'a\'b\'c'`, "''", `"quoted\n"`, "@", "`1`", "a == 'x'",
 	"", " ", "#", "a.", "a..b", ".a", "a.b.c.d.", "a[", "[0", "a[0", "{a:", "{a: b c}", "f(a b)", "f(", "'unclosed", "\"unclosed", "`unclosed", "`{bad json`", "\"bad\\xescape\"",
 	`'it\'s`, `'a\'`, `'x'`, `'abc' == 'abc'`, `'\'`, "\"a\\\"", "`\"x\\`", "`\\``", "foo[-]", "foo[:-]", "`seeded`", "\"bad\\qescape\"", "a[?b == 'c\\'d']", "'tail",
+	"1", "007", "1a", "0", "9_lives", " 1a", "aZ", "AZx", "a.Z9",
 	"a = b", "a.b.c.d.e.f.g ? h", "a[1:2:3:4]", "@(a)", "a b", "a ]", "(a", "a)", "[-]", "a[99999999999999999999]", "!", "&", "a.'x'", "a\u0080", "\xff", "a | ", "[?a",
 }
 
@@ -368,9 +371,9 @@ func workC13(c *shardCtx) {
 		rec(nil)
 		// long histories ("pumped"): the same call several hundred times, then every document again
 		// (budgets, counters and caches that only overflow or wrap after many calls)
-		reps := 600
+		reps := 1500
 		if c.thorough() {
-			reps = 3000
+			reps = 5000
 		}
 		for di := 0; di < nd && !failed; di++ {
 			if (ei+di)%4 != 0 && !c.thorough() {
@@ -589,7 +592,7 @@ func finishC13(r *harness.Run, k map[string]int64, notes map[string]interface{})
 	r.Note("expressions", k["expressions"])
 	r.Note("expressions_closed_at_one_state", k["closed_at_one_state"])
 	r.Note("search_histories_replayed", k["histories"])
-	r.Note("long_histories_of_600_calls", k["long_histories"])
+	r.Note("long_histories_of_1500_calls", k["long_histories"])
 	r.Note("parser_states", k["parser_states"])
 	r.Note("parser_histories_replayed", k["parser_histories"])
 	r.Note("process_global_call_sequences", k["global_histories"])
